@@ -55,7 +55,7 @@ def expected_fall_ends(cs) -> set:
         trail.append(s)
         if s.kind == "pulse":
             break
-    for mode_fn in (lambda s: slot_in_eom(s, cs), lambda s: cs.in_eom):
+    for mode_fn in (lambda s: slot_in_eom(s, cs), lambda s: cs.in_eom, lambda s: True, lambda s: False):
         out.add(max([end] + [s.tf + fall_time(s, cs, mode_fn(s)) for s in trail]))
     return out
 
